@@ -4338,7 +4338,14 @@ EmitModSib_LabelRip_X86:
           }
 
           label = &_code->label_entry_of(base_label_id);
-          rel_offset -= (4 + imm_size);
+
+          // Adjust the offset by the size of the displacement and the immediate that follows it (64-bit
+          // arithmetic - the offset given by the user can be INT32_MIN).
+          int64_t adjusted_offset = int64_t(rel_offset) - int64_t(4 + imm_size);
+          if (ASMJIT_UNLIKELY(!Support::is_int_n<32>(adjusted_offset))) {
+            goto InvalidDisplacement;
+          }
+          rel_offset = int32_t(adjusted_offset);
 
           if (label->is_bound_to(_section)) {
             // Label bound to the current section.
